@@ -147,7 +147,7 @@ Section Trans.
 
   (* `exit` with no active do-loop: unwind to the caller of the word *)
   Lemma T_exit : forall w ip fr ts rdy sw, CT c ((w, ip) :: fr) [] ts rdy -> znth c w = Some sw ->
-    tlt ts (zlen fr + 1) -> CT c (skipn (Z.to_nat (s_ed sw)) fr) [] ts rdy /\ s_ed sw <= zlen fr.
+    tlt ts (zlen fr + 1) -> CT c (skipn (Z.to_nat (s_ed sw)) fr) [] ts rdy /\ 0 <= s_ed sw <= zlen fr.
   Proof.
     intros w ip fr ts rdy sw [F [D T]] Hw Ht. rewrite zlen_cons in *.
     destruct (frames_ok_top _ _ _ _ _ _ F) as [sw' [Hw' [_ [H2 [H3 [H4 [H5 H6]]]]]]].
